@@ -19,8 +19,10 @@ RULE = ('cases are edit histories in an operation DSL (cell assignment, add/set/
         'built by an actual history, then EVERY operation instance over the universe is applied (argument lists = '
         'every ordered list without repeats plus lists with a repeat; every other-definition over the universe with '
         'and without ignore_conflicts; rename targets inside the universe incl. old == new; move indexes 0..len-1), '
-        'and after every non-"other" first operation (and a seed-derived 1/16 resp. 1/32 of the others) every probing '
-        'operation is applied as a third step, so residue of the first edit is exposed. (2) Hypothesis '
+        'and after every non-"other" first operation (and a seed-derived 1/8 resp. 1/32 of the others) a battery '
+        'of probes is applied as a further step (every read d[o, p] / d[0..2]; per name one setitem, add_*, set_*, '
+        'remove_*, rename_*, move_*; remove_empty_*), so residue of the first edit is exposed (probe steps are '
+        'counted in evaluations but, to stay cheap, not in distinct_nontrivial). (2) Hypothesis '
         'RuleBasedStateMachine over 8+8 pool names plus fresh names, argument lists up to 5 with repeats, <= 50 '
         'steps, other-definitions drawn or snapshots of earlier states. Oracle after every step: (objects, '
         'properties, bools), return value and outcome class equal the model; a call the model rejects raises and '
@@ -56,6 +58,23 @@ def core_ops(objs, props):
         ops += [[name, p, lst] for name in ('add_property', 'set_property') for lst in arg_lists(objs)]
     ops += [['remove_empty_objects'], ['remove_empty_properties'], ['getitem_int', 0], ['getitem_int', 1], ['getitem_int', 2]]
     return ops
+
+
+def probe_ops(objs, props):
+    """Third-step probes: every read, and one mutator instance per name that re-adds / removes / renames it."""
+    reads = [['getitem', o, p] for o in objs for p in props] + [['getitem_int', i] for i in range(3)]
+    muts = []
+    for o in objs:
+        for p in props:
+            muts.append(['setitem', o, p, True])
+    for k, o in enumerate(objs):
+        muts += [['add_object', o, []], ['remove_object', o], ['rename_object', o, objs[(k + 1) % len(objs)]],
+                 ['set_object', o, list(props)], ['move_object', o, 0]]
+    for k, p in enumerate(props):
+        muts += [['add_property', p, []], ['remove_property', p], ['rename_property', p, props[(k + 1) % len(props)]],
+                 ['set_property', p, list(objs)], ['move_property', p, 0]]
+    muts += [['remove_empty_objects'], ['remove_empty_properties']]
+    return reads, muts
 
 
 def other_ops(objs, props):
@@ -138,8 +157,9 @@ def bfs_task(task, ctx):
     states = dm.all_definitions(list(objs), list(props))[task['start']:task['stop']]
     cores = core_ops(objs, props)
     others = other_ops(objs, props)
+    reads, muts = probe_ops(objs, props)
     frac = task['probe_fraction']
-    n_states = n_trans = 0
+    n_states = n_trans = n_probe = 0
     for enc in states:
         hist = canonical_history(enc)
         d0, m0 = run_history(ctx, hist, record=False)
@@ -162,19 +182,22 @@ def bfs_task(task, ctx):
                     hsh = hashlib.blake2b(repr((enc, k, ctx.seed)).encode(), digest_size=2).digest()
                     if int.from_bytes(hsh, 'big') % frac:
                         continue
-                for op2 in cores:
+                # reads act on d1 itself (a read must not change it: checked by step), mutators on copies
+                for op2 in reads:
+                    h2 = h1 + [op2]
+                    dm.step(ctx, d1, m1, op2, lambda: {'history': h2})
+                for op2 in muts:
                     if not valid_for(op2, m1):
                         continue
                     h2 = h1 + [op2]
-                    case2 = lambda: {'history': h2}
                     d2 = copy.deepcopy(d1)
-                    rej2 = _rejects(m1, op2)
-                    dm.step(ctx, d2, m1, op2, case2)
-                    n_trans += 1
-                    ctx.case(case2, classify(h2, ['ok'] * len(hist) + ['reject' if rej1 else 'ok', 'reject' if rej2 else 'ok']),
-                             ('bfs-probe',))
+                    dm.step(ctx, d2, m1, op2, lambda: {'history': h2})
+                n_trans += len(reads) + len(muts)
+                n_probe += len(reads) + len(muts)
+                ctx.evaluations += len(reads) + len(muts)
     ctx.count('states', n_states)
     ctx.count('transitions', n_trans)
+    ctx.count('probe_steps', n_probe)
 
 
 # ---------------------------------------------------------------------------
@@ -317,7 +340,7 @@ def machine_task(task, ctx):
 
 def plan(tier, seed):
     tasks = []
-    frac = 16 if tier == 'quick' else 32
+    frac = 8 if tier == 'quick' else 32
     for objs, props in UNIVERSES[tier]:
         total = len(dm.all_definitions(list(objs), list(props)))
         step = 4 if tier == 'quick' else 10
